@@ -459,10 +459,15 @@ def Eff (G : Graph) (s s' : St) : Prop :=
     (∀ k ∈ N.map Prod.fst, assoc k s.trans = none) ∧ (N.map Prod.fst).Nodup ∧
     (∀ p ∈ N, p.2 ∈ s.trans.map Prod.snd ∨ ∃ m, p.2 = refOf m ∧ s.next ≤ m ∧ m < s.next + a) ∧
     (P.map Prod.fst).Perm ((List.range' s.next a).map refOf) ∧
-    (∀ p ∈ P, ∃ src, (src, p.1) ∈ N ∧ Image s'.trans G src p.2)
+    (∀ p ∈ P, ∃ src, (src, p.1) ∈ N ∧ Image s'.trans G src p.2) ∧
+    s'.tgtV = s.tgtV
 
 theorem Eff.refl (G : Graph) (s : St) : Eff G s s :=
-  ⟨[], [], 0, by simp, by simp, by simp, by simp, by simp, by simp, by simp, by simp⟩
+  ⟨[], [], 0, by simp, by simp, by simp, by simp, by simp, by simp, by simp, by simp, rfl⟩
+
+theorem Eff.tgtV {G : Graph} {s s' : St} (h : Eff G s s') : s'.tgtV = s.tgtV := by
+  obtain ⟨_, _, _, _, _, _, _, _, _, _, _, h⟩ := h
+  exact h
 
 theorem Eff.extends {G : Graph} {s s' : St} (h : Eff G s s') : Extends s.trans s'.trans := by
   obtain ⟨N, P, a, h1, _, _, h4, _⟩ := h
@@ -474,9 +479,9 @@ theorem Eff.next_le {G : Graph} {s s' : St} (h : Eff G s s') : s.next ≤ s'.nex
 
 theorem Eff.trans {G : Graph} {s1 s2 s3 : St} (h12 : Eff G s1 s2) (h23 : Eff G s2 s3) : Eff G s1 s3 := by
   have hext := h23.extends
-  obtain ⟨N1, P1, n1, a1, b1, c1, d1, e1, f1, g1, i1⟩ := h12
-  obtain ⟨N2, P2, n2, a2, b2, c2, d2, e2, f2, g2, i2⟩ := h23
-  refine ⟨N2 ++ N1, P1 ++ P2, n1 + n2, ?_, ?_, ?_, ?_, ?_, ?_, ?_, ?_⟩
+  obtain ⟨N1, P1, n1, a1, b1, c1, d1, e1, f1, g1, i1, j1⟩ := h12
+  obtain ⟨N2, P2, n2, a2, b2, c2, d2, e2, f2, g2, i2, j2⟩ := h23
+  refine ⟨N2 ++ N1, P1 ++ P2, n1 + n2, ?_, ?_, ?_, ?_, ?_, ?_, ?_, ?_, j2.trans j1⟩
   · rw [a2, a1, List.append_assoc]
   · rw [b2, b1, List.append_assoc]
   · rw [c2, c1]; omega
@@ -566,7 +571,15 @@ theorem put_ok {s s' : St} {r : Ref} {v : Val} (h : put s r v = .ok s') :
   unfold put at h
   split at h
   · cases h
-  · cases h; rfl
+  · split at h
+    · cases h
+    · cases h; rfl
+
+theorem put_tgtV {s s' : St} {r : Ref} {v : Val} (h : put s r v = .ok s') : s'.tgtV = s.tgtV := by
+  rw [put_ok h]
+
+theorem alloc_tgtV {s s1 : St} {n : Ref} (h : alloc s = .ok (n, s1)) : s1.tgtV = s.tgtV := by
+  rw [(alloc_ok h).2]
 
 
 
@@ -585,13 +598,15 @@ theorem assoc_enter_none {chain : List Ref} {t k : Ref} {tr : List (Ref × Ref)}
 /-- the branch of `CopyReference` which allocates: the chain ended (or resolves to null) -/
 theorem Eff_copyRef_new {G : Graph} {s s3 : St} {r : Ref} {chain : List Ref} {v' : Val}
     (hnd : chain.Nodup) (hfresh : ∀ k ∈ chain, assoc k s.trans = none) (hr : r ∈ chain)
-    (h23 : Eff G { trans := enter chain (refOf s.next) s.trans, next := s.next + 1, puts := s.puts } s3)
+    (h23 : Eff G { trans := enter chain (refOf s.next) s.trans, next := s.next + 1, puts := s.puts,
+                   tgtV := s.tgtV } s3)
     (him : Image s3.trans G r v') :
-    Eff G s { trans := s3.trans, next := s3.next, puts := s3.puts ++ [(refOf s.next, v')] } := by
-  obtain ⟨N, P, a, ha, hb, hc, hd, he, hf, hg, hi⟩ := h23
-  simp only at ha hb hc hd hf hg
+    Eff G s { trans := s3.trans, next := s3.next, puts := s3.puts ++ [(refOf s.next, v')],
+              tgtV := s3.tgtV } := by
+  obtain ⟨N, P, a, ha, hb, hc, hd, he, hf, hg, hi, hj⟩ := h23
+  simp only at ha hb hc hd hf hg hj
   refine ⟨N ++ chain.map (fun k => (k, refOf s.next)), P ++ [(refOf s.next, v')], a + 1,
-    ?_, ?_, ?_, ?_, ?_, ?_, ?_, ?_⟩
+    ?_, ?_, ?_, ?_, ?_, ?_, ?_, ?_, hj⟩
   · simp [ha, enter]
   · simp [hb]
   · simp only [hc]; omega
@@ -637,7 +652,7 @@ theorem Eff_copyRef_known {G : Graph} {s : St} {chain : List Ref} {t x : Ref}
     (hnd : chain.Nodup) (hfresh : ∀ k ∈ chain, assoc k s.trans = none)
     (hx : assoc x s.trans = some t) :
     Eff G s { s with trans := enter chain t s.trans } := by
-  refine ⟨chain.map (fun k => (k, t)), [], 0, rfl, by simp, by simp, ?_, ?_, ?_, by simp, by simp⟩
+  refine ⟨chain.map (fun k => (k, t)), [], 0, rfl, by simp, by simp, ?_, ?_, ?_, by simp, by simp, rfl⟩
   · intro k hk; exact hfresh k (mem_enter_keys.mp hk)
   · simpa [List.map_map, Function.comp_def] using hnd
   · intro p hp
@@ -1270,7 +1285,7 @@ theorem copied_once {G : Graph} {f : Nat} {s s' : St} {r t : Ref}
       (P.map Prod.fst).Perm ((List.range' s.next (s'.next - s.next)).map refOf) ∧
       (∀ n, s.next ≤ n → n < s'.next → (P.map Prod.fst).count (refOf n) = 1) ∧
       (∀ n, s.next ≤ n → n < s'.next → ∃ k, (k, refOf n) ∈ N) := by
-  obtain ⟨N, P, a, ha, hb, hc, hd, he, hf, hg, hi⟩ := (copyRef_effect h).1
+  obtain ⟨N, P, a, ha, hb, hc, hd, he, hf, hg, hi, _⟩ := (copyRef_effect h).1
   have hl : s'.next - s.next = a := by omega
   refine ⟨N, P, ha, hb, hd, he, ?_, ?_, ?_, ?_⟩
   · intro p hp
@@ -1316,12 +1331,12 @@ theorem dangling_is_null {G : Graph} {s : St} {r : Ref} (f : Nat)
     (hfree : s.puts.any (fun p => p.1.1 == s.next) = false) :
     copyRef (f + 3) G s r = .ok (refOf s.next,
       { trans := (r, refOf s.next) :: s.trans, next := s.next + 1,
-        puts := s.puts ++ [(refOf s.next, .obj .null)] }) := by
+        puts := s.puts ++ [(refOf s.next, .obj .null)], tgtV := s.tgtV }) := by
   have h1 : ¬ (s.next ≥ Gen.cpy_maxXRefSize) := by omega
   have hw : walkFrom G s.trans r = .ends (.obj .null) [r] := by
     unfold walkFrom walkChain
     simp [CPY.get, hmiss]
-  simp [copyRef, hnew, hw, alloc, h1, copyVal, copyObj, put, hfree, refOf, enter]
+  simp [copyRef, hnew, hw, alloc, h1, copyVal, copyObj, put, putRefusal, hfree, refOf, enter]
 
 theorem depth_eq : Gen.cpy_MaxExtractDepth = (Gen.cpy_MaxExtractDepth - 2) + 1 + 1 := by decide
 
@@ -1425,16 +1440,18 @@ def Consistent (G : Graph) (Rd : List Ref) (s : St) : Prop :=
   ∀ src t, (src, t) ∈ s.trans → ¬ Exempt G Rd src →
     ∃ v, assoc t s.puts = some v ∧ Image s.trans G src v
 
-def St.init (n0 : Nat) : St := { trans := [], next := n0, puts := [] }
+/-- the state of a new `Copier` on a target whose next free number is `n0`; `tv` is /V of the
+    target's encryption dictionary (0: not encrypted) -/
+def St.init (n0 : Nat) (tv : Nat := 0) : St := { trans := [], next := n0, puts := [], tgtV := tv }
 
-theorem init_consistent (G : Graph) (n0 : Nat) : Consistent G [] (St.init n0) := by
+theorem init_consistent (G : Graph) (n0 : Nat) (tv : Nat := 0) : Consistent G [] (St.init n0 tv) := by
   simp [Consistent, St.init]
 
 theorem Eff.consistent' {G : Graph} (hL : LinkInv G) {Rd : List Ref} {s s' : St}
     (hc : Consistent G Rd s) (h : Eff G s s') (hal : AliasOK G s s') : Consistent G Rd s' := by
   obtain ⟨c1, c2, c3⟩ := hc
   have hext := h.extends
-  obtain ⟨N, P, a, ha, hb, hcn, hd, he, hf, hg, hi⟩ := h
+  obtain ⟨N, P, a, ha, hb, hcn, hd, he, hf, hg, hi, _⟩ := h
   have hPnodup : (P.map Prod.fst).Nodup := (List.Perm.nodup_iff hg).mpr (range_refs_nodup _ _)
   have hPmem : ∀ k ∈ P.map Prod.fst, s.next ≤ k.1 ∧ k.1 < s'.next := by
     intro k hk
@@ -1690,7 +1707,7 @@ def Fine {α : Type} (x : Except CErr α) : Prop := (∃ a, x = .ok a) ∨ x = .
 theorem Eff.new_keys {G : Graph} {s s' : St} (h : Eff G s s') :
     ∃ P : List (Ref × Val), s'.puts = s.puts ++ P ∧
       ∀ k ∈ P.map Prod.fst, ∃ m, k = refOf m ∧ s.next ≤ m ∧ m < s'.next := by
-  obtain ⟨N, P, a, _, b, c, _, _, _, g, _⟩ := h
+  obtain ⟨N, P, a, _, b, c, _, _, _, g, _, _⟩ := h
   refine ⟨P, b, ?_⟩
   intro k hk
   obtain ⟨m, hm, rfl⟩ := List.mem_map.mp (g.mem_iff.mp hk)
@@ -1706,5 +1723,11 @@ theorem Eff.pb {G : Graph} {s s' : St} (hp : PB s) (h : Eff G s s') : PB s' := b
   · have := hp k e; omega
   · obtain ⟨m, rfl, _, h2⟩ := hk k e
     simpa [refOf] using h2
+
+/-- the copier state belongs to a target with /V `tv`, and its written numbers are below `next` -/
+def PBT (tv : Nat) (s : St) : Prop := PB s ∧ s.tgtV = tv
+
+theorem Eff.pbt {G : Graph} {tv : Nat} {s s' : St} (h : Eff G s s') (hp : PBT tv s) : PBT tv s' :=
+  ⟨h.pb hp.1, h.tgtV.trans hp.2⟩
 
 end PdfVerif.C11cpy
